@@ -25,6 +25,14 @@ def merged(prop, seq_kwargs, scns):
     t0 = time.time()
     cov1, v1 = minthist.check(prop, collect=True, with_model=True, **seq_kwargs)
     cov2, v2, _ = conc.check(prop, scns)
+    cov3, v3 = None, 0
+    if prop == "C01":
+        # behaviours of MintSteps (four and five concurrent requests) replayed on the real mint
+        cov3, v3, _ = conc.guided_check(prop)
+        v2 += v3
+        for k in ("states", "transitions", "traces_validated_against_impl", "evaluations", "distinct_nontrivial"):
+            cov2[k] += cov3[k]
+        cov2["known_findings_seen"] = cov2["known_findings_seen"] + cov3["known_findings_seen"]
     cov = dict(cov1)
     cov["states"] = cov1["states"] + cov2["states"]
     cov["transitions"] = cov1["transitions"] + cov2["transitions"]
@@ -36,6 +44,12 @@ def merged(prop, seq_kwargs, scns):
     cov["concurrent"] = {k: cov2[k] for k in ("scenarios", "exhaustive", "rejected_executions", "rejected_signatures", "rule")}
     cov["layer2_model"] = cov2["layer2_model"]
     cov["layer2_conformance"] = cov2["layer2_conformance"]
+    if cov3:
+        cov["model_guided_schedules"] = {k: cov3[k] for k in ("generated_from_model", "traces_validated_against_impl", "rejected_executions",
+                                                               "rejected_signatures", "layer2_conformance")}
+        cov["model_guided_schedules"]["rule"] = ("behaviours of MintSteps drawn by TLC -simulate for scenarios of four and five concurrent requests; each is "
+                                                 "one execution of the real mint with that schedule (lenient) and that behaviour's Lightning answers, validated by "
+                                                 "MintAccept (linearizability) and by MintStepsTrace (its call sequence must be a behaviour of MintSteps again)")
     cov["known_findings_seen"] = cov1["known_findings_seen"] + cov2["known_findings_seen"]
     cov["exhaustive"] = False
     write_evidence(prop, "model_checking", cov, time.time() - t0, v1 + v2, ASSUME)
